@@ -4147,6 +4147,9 @@ def apply_delta(
         raise ApplyDeltaError(
             f"Unexpected source buffer size: {src_size} vs {len(src_buf)}"
         )
+    # Bytes of the declared target size not produced yet: like git's
+    # patch_delta, never materialise more output than the delta declares.
+    remaining = dest_size
     while index < delta_length:
         cmd = ord(delta[index : index + 1])
         index += 1
@@ -4167,15 +4170,19 @@ def apply_delta(
             if (
                 cp_off + cp_size < cp_size
                 or cp_off + cp_size > src_size
-                or cp_size > dest_size
+                or cp_size > remaining
             ):
                 break
             out.append(src_buf[cp_off : cp_off + cp_size])
+            remaining -= cp_size
         elif cmd != 0:
             if index + cmd > delta_length:
                 raise ApplyDeltaError("delta truncated in insert op")
+            if cmd > remaining:
+                raise ApplyDeltaError("delta produces more data than it declares")
             out.append(delta[index : index + cmd])
             index += cmd
+            remaining -= cmd
         else:
             raise ApplyDeltaError("Invalid opcode 0")
 
